@@ -151,6 +151,9 @@ func (p *c15) Check(sc *runner.Scenario, st *runner.Stats, pin string) *runner.V
 		}
 		return viol(sc, "unexpected_error", "fault-free read, reader %s ended with %s: %v", mode, full.terminal, full.err)
 	}
+	if d := anchorToModel(mode, full, w); d != "" {
+		return viol(sc, "delivery_changes_result", "fault-free read, reader %s, against what was written: %s", mode, d)
+	}
 	if sc.Fault != nil {
 		if sc.Fault.Kind == "benign" {
 			return p.benign(sc, w, mode, full, sc.Delivery.Kind, sc.Delivery.Seed, st, pin)
